@@ -56,3 +56,41 @@ Lemma truthy_dict (d:delta) : (if negb (isnil d) then d else []) = d.
 Proof. destruct d; reflexivity. Qed.
 Lemma truthy_dict' (d:delta) : (if isnil d then [] else d) = d.
 Proof. destruct d; reflexivity. Qed.
+
+(** ---- pure dict / set views used in (defensive) assertions ---- *)
+Definition keys {A} (d:list (N*A)) : list N := map fst d.
+Definition disjointb (a b:list N) : bool := forallb (fun k => negb (mem k b)) a.
+
+Arguments keys : simpl never.
+Arguments disjointb : simpl never.
+
+Lemma mem_keys {A} k (d:list (N*A)) : mem k (keys d) = amem k d.
+Proof.
+  unfold mem, keys, amem. induction d as [|kv d IH]; [reflexivity|]. simpl. rewrite IH, (N.eqb_sym k). reflexivity.
+Qed.
+
+(** a comprehension [{k: f(v) for k, v in d.items()}] keeps the keys *)
+Lemma map_opt_keys {A B} (g:N*A -> option B) (d:list (N*A)) l :
+  map_opt (fun kv => bind (g kv) (fun v => Some (fst kv, v))) d = Some l -> keys l = keys d.
+Proof.
+  revert l. induction d as [|kv d IH]; intros l H; simpl in H.
+  - inversion H. reflexivity.
+  - destruct (g kv); simpl in H; [|discriminate].
+    destruct (map_opt (fun kv0 => bind (g kv0) (fun v => Some (fst kv0, v))) d) eqn:E; simpl in H; [|discriminate].
+    inversion H; subst. unfold keys in *. simpl. rewrite (IH l0 eq_refl). reflexivity.
+Qed.
+
+(** entries kept only when their key is not in [d] have keys disjoint from the keys of anything with [d]'s keys *)
+Lemma disjoint_unshadowed {A B} (ks:list N) (d:list (N*A)) (e:list (N*B)) (g:N*B -> bool) :
+  ks = keys d ->
+  disjointb ks (keys (filter (fun kv => negb (amem (fst kv) d) && g kv) e)) = true.
+Proof.
+  intros ->. unfold disjointb. apply forallb_forall. intros k Hk.
+  destruct (mem k (keys (filter (fun kv => negb (amem (fst kv) d) && g kv) e))) eqn:M; [|reflexivity]. exfalso.
+  unfold mem in M. apply existsb_exists in M as [k' [Hin Hk']]. apply N.eqb_eq in Hk'. subst k'.
+  unfold keys in Hin. apply in_map_iff in Hin as [kv [Hf Hin]]. apply filter_In in Hin as [_ Hc].
+  apply andb_prop in Hc as [Hc _]. rewrite Hf in Hc.
+  assert (amem k d = true).
+  { rewrite <- mem_keys. unfold mem. apply existsb_exists. exists k. split; [exact Hk|apply N.eqb_refl]. }
+  rewrite H in Hc. discriminate.
+Qed.
